@@ -48,13 +48,78 @@ type Store struct {
 	Held        chan int // receives seq when a Mutate is being held
 	killBefore  int
 	killAfter   int
+	holdGet     chan struct{}   // if set, the next Get on holdGetTab waits for it (one shot)
+	holdGetTab  storage.Table
+	GetHeld     chan struct{}   // signalled when a Get is being held
+	OnBackup    func(err error) // called right after the inner Backup returned (still inside CreateBackup)
+	holdBackup  chan struct{}   // if set, the next Backup waits for it before copying
+	BackupHeld  chan struct{}   // signalled when a Backup is being held
 	openReaders int32
 	LeakAtClose int32
 	Closed      bool
 }
 
 func Wrap(inner storage.ManagedStore, name string) *Store {
-	return &Store{ManagedStore: inner, Name: name, holdBefore: map[int]chan struct{}{}, holdAfter: map[int]chan struct{}{}, Held: make(chan int, 16)}
+	return &Store{ManagedStore: inner, Name: name, holdBefore: map[int]chan struct{}{}, holdAfter: map[int]chan struct{}{}, Held: make(chan int, 16), BackupHeld: make(chan struct{}, 4), GetHeld: make(chan struct{}, 4)}
+}
+
+// HoldBackup makes the next Backup wait (after CreateBackup has read the version it records,
+// before the engine captures the store) until the returned channel is closed.
+func (s *Store) HoldBackup() chan struct{} {
+	s.mu.Lock()
+	defer s.mu.Unlock()
+	s.holdBackup = make(chan struct{})
+	return s.holdBackup
+}
+
+// HoldGet makes the next Get on the given table wait until the returned channel is closed
+// (parks an insertion in the middle of its in-memory computation: the balloon reads the hyper
+// table while it inserts). CancelGet disarms it.
+func (s *Store) HoldGet(t storage.Table) chan struct{} {
+	s.mu.Lock()
+	defer s.mu.Unlock()
+	s.holdGet = make(chan struct{})
+	s.holdGetTab = t
+	return s.holdGet
+}
+
+func (s *Store) CancelGet() {
+	s.mu.Lock()
+	s.holdGet = nil
+	s.mu.Unlock()
+}
+
+func (s *Store) Get(t storage.Table, key []byte) (*storage.KVPair, error) {
+	s.mu.Lock()
+	h := s.holdGet
+	if h != nil && t == s.holdGetTab {
+		s.holdGet = nil
+	} else {
+		h = nil
+	}
+	s.mu.Unlock()
+	if h != nil {
+		s.GetHeld <- struct{}{}
+		<-h
+	}
+	return s.ManagedStore.Get(t, key)
+}
+
+func (s *Store) Backup(metadata string) error {
+	s.mu.Lock()
+	h := s.holdBackup
+	s.holdBackup = nil
+	cb := s.OnBackup
+	s.mu.Unlock()
+	if h != nil {
+		s.BackupHeld <- struct{}{}
+		<-h
+	}
+	err := s.ManagedStore.Backup(metadata)
+	if cb != nil {
+		cb(err)
+	}
+	return err
 }
 
 var mh = new(codec.MsgpackHandle)
